@@ -151,7 +151,22 @@ fn run_case(
     let follow_nonce = payload(id ^ 0x5555, 40);
     let mut follow_sent_early = false;
     let transmitted = attempts - injected.load(Ordering::SeqCst);
-    if !send_ok && transmitted == 0 {
+    let mut early_got = None;
+    let mut send_follow_now = !send_ok && transmitted == 0;
+    if !send_ok && transmitted > 0 {
+        // Some real transmission was attempted: if it went out, the receiver is inside the
+        // message and sees its end as soon as the sender's dedicated socket is closed.
+        match rrx.recv_timeout(std::time::Duration::from_millis(500)) {
+            Ok(g) => early_got = Some(g),
+            Err(_) => {
+                // evidently nothing arrived; the trace of this case is not validated because the
+                // follow-on message below may race with a receiver that is merely slow
+                verif::emit("case.skip", &[("id", id as i64)]);
+                send_follow_now = true;
+            },
+        }
+    }
+    if send_follow_now {
         // The channel must stay usable after a refused/failed send: push a small message through
         // it. Nothing of the failed message was transmitted, so the receiver is still waiting for
         // a first packet and will return this one. It is a case of its own for the trace.
@@ -168,7 +183,10 @@ fn run_case(
         verif::set_actor(0);
         out["follow_sent"] = json!(follow_sent_early);
     }
-    let got = rrx.recv_timeout(std::time::Duration::from_secs(if send_ok { 20 } else { 5 }));
+    let got = match early_got {
+        Some(g) => Ok(g),
+        None => rrx.recv_timeout(std::time::Duration::from_secs(if send_ok { 20 } else { 5 })),
+    };
     let mut rx_back = None;
     match got {
         Err(_) => {
